@@ -3,11 +3,14 @@
 From Coq Require Extraction.
 From Coq Require Import ExtrOcamlBasic.
 From RainVerif Require Import Params.
-From RainVerif.model Require Import Bytes Crc Log LogScript Bloom FilterBlock.
+From RainVerif.model Require Import Bytes Crc Log LogScript Bloom FilterBlock Key Block Table TableSpec.
 
 Extraction Language OCaml.
 
 Extraction "../ocaml/model.ml"
   crc32c mask_checksum unmask_checksum
   log_read_all log_script_run log_script_spec
-  bloom_create bloom_match fb_build fb_parse fb_match.
+  bloom_create bloom_match fb_build fb_parse fb_match
+  ikey_cmp ikey_eqb ikey_encode ikey_decode ikey_separator ikey_successor bytes_separator bytes_successor
+  block_encode bb_approx_size block_decode bi_seek bi_seek_first bi_seek_last bi_next bi_prev bi_current
+  table_build_bs table_get tl_run tl_new lc_run lc_first get_spec sorted_entries.
